@@ -251,6 +251,14 @@ func (e *Engine) evalCall(st *State, call *ast.CallExpr) Value {
 		}
 		break
 	}
+	if ix, ok := funX.(*ast.IndexExpr); ok {
+		// explicit instantiation of a universe generic: ghostOf[T](...)
+		if id, ok := ix.X.(*ast.Ident); ok && id.Name == "ghostOf" {
+			if f, ok := e.pkg.info.Uses[id].(*types.Func); ok && f.Pkg() == nil {
+				return e.evalGhostOf(st, call)
+			}
+		}
+	}
 	if id, ok := funX.(*ast.Ident); ok {
 		switch o := e.pkg.info.Uses[id].(type) {
 		case *types.Builtin:
@@ -869,6 +877,9 @@ func (e *Engine) evalClauseValue(st *State, cl *Clause) Value {
 	savePkg := e.pkg
 	saveHoist := e.hoisted
 	saveMemo := e.clauseMemo
+	saveCS := e.clauseState
+	e.clauseState = st
+	defer func() { e.clauseState = saveCS }()
 	e.hoisted = nil
 	e.clauseMemo = map[string]Value{}
 	e.pkg = &pkgCtx{info: cl.info, pkg: savePkg.pkg}
@@ -932,14 +943,14 @@ func (e *Engine) callContract(st *State, fc *FuncContract, args []Value, call *a
 			e.havocHeap(st, "call")
 		} else {
 			// all targets are named in the pre-state, then forgotten
-			var targets []Value
+			var targets []modTarget
 			for _, m := range fc.modifies {
 				e.envStack = append(e.envStack, env)
-				targets = append(targets, e.evalClauseValue(st, m))
+				targets = append(targets, e.evalModTarget(st, m))
 				e.envStack = e.envStack[:len(e.envStack)-1]
 			}
 			for i, m := range fc.modifies {
-				e.havocTarget(st, targets[i], m.info.TypeOf(m.expr), m)
+				e.havocModTarget(st, targets[i], m)
 			}
 		}
 	}
@@ -967,6 +978,54 @@ func (e *Engine) callContract(st *State, fc *FuncContract, args []Value, call *a
 }
 
 // havocTarget forgets the memory a modifies clause names: *p for pointers, the elements for slices.
+// modTarget: what a modifies clause names.  `&x.f` names exactly the cells of field f (place-based, keeps the
+// typed-heap key); a pointer names its pointee; a slice its elements; a map its entries.
+type modTarget struct {
+	val   Value
+	typ   types.Type
+	place *place // for &x.f
+}
+
+func (e *Engine) evalModTarget(st *State, m *Clause) modTarget {
+	x := m.expr
+	for {
+		if p, ok := x.(*ast.ParenExpr); ok {
+			x = p.X
+			continue
+		}
+		break
+	}
+	if u, ok := x.(*ast.UnaryExpr); ok && u.Op == token.AND {
+		savePkg := e.pkg
+		e.pkg = &pkgCtx{info: m.info, pkg: savePkg.pkg}
+		e.specMode++
+		pl := e.placeOf(st, u.X)
+		e.specMode--
+		e.pkg = savePkg
+		if pl.isAddr {
+			return modTarget{place: &pl, typ: m.info.TypeOf(m.expr)}
+		}
+	}
+	return modTarget{val: e.evalClauseValue(st, m), typ: m.info.TypeOf(m.expr)}
+}
+
+func (e *Engine) havocModTarget(st *State, mt modTarget, cl *Clause) {
+	if mt.place != nil {
+		key := mt.place.key
+		if key == "" {
+			key = scalarKey(mt.place.typ)
+		}
+		if _, isArr := under(mt.place.typ).(*types.Array); isArr {
+			e.memWrite(st, mt.place.addr, e.fresh("havoc_arr", SArr), "a modifies target")
+			return
+		}
+		e.havocCells(st, mt.place.addr, mt.place.typ, key)
+		e.havocArrayFields(st, mt.place.addr, mt.place.typ)
+		return
+	}
+	e.havocTarget(st, mt.val, mt.typ, cl)
+}
+
 func (e *Engine) havocTarget(st *State, v Value, t types.Type, cl *Clause) {
 	switch x := v.(type) {
 	case RefV:
@@ -1036,6 +1095,11 @@ func (e *Engine) havocArrayFields(st *State, base T, t types.Type) {
 
 func (e *Engine) evalSpecHelper(st *State, call *ast.CallExpr, name string) Value {
 	switch name {
+	case "cur":
+		if e.clauseState != nil {
+			return e.eval(e.clauseState, call.Args[0])
+		}
+		return e.eval(st, call.Args[0])
 	case "old":
 		if e.oldState == nil {
 			return e.eval(st, call.Args[0])
@@ -1268,6 +1332,31 @@ func (e *Engine) evalSpecHelper(st *State, call *ast.CallExpr, name string) Valu
 			updV = Sto(updV, k, Sel(curV, k))
 		}
 		return BoolV{And(Eq(curP, updP), Eq(curV, updV))}
+	case "before":
+		pv, ok1 := e.eval(st, call.Args[0]).(RefV)
+		qv, ok2 := e.eval(st, call.Args[1]).(RefV)
+		if !ok1 || !ok2 {
+			e.fail(call, "before needs pointers")
+		}
+		sz := 1
+		if pt, ok := under(e.typeOf(call.Args[0])).(*types.Pointer); ok {
+			sz = e.cells(pt.Elem())
+		}
+		return BoolV{Le(Add(pv.t, I(int64(sz))), qv.t)}
+	case "allocated":
+		v := e.eval(st, call.Args[0])
+		t := e.typeOf(call.Args[0])
+		switch x := v.(type) {
+		case RefV:
+			sz := 1
+			if pt, ok := under(t).(*types.Pointer); ok {
+				sz = e.cells(pt.Elem())
+			}
+			return BoolV{And(Gt(x.t, I(0)), Le(Add(x.t, I(int64(sz))), st.alloc))}
+		case SliceV:
+			return BoolV{Lt(x.blk, st.alloc)}
+		}
+		e.fail(call, "allocated of %T", v)
 	case "sameBlock":
 		a, aok := e.eval(st, call.Args[0]).(SliceV)
 		b, bok := e.eval(st, call.Args[1]).(SliceV)
@@ -1534,4 +1623,42 @@ func (e *Engine) lexLess(x, y bytesOp) T {
 	properPrefix := And(Lt(x.n, y.n), same(x.n))
 	differ := Exists([]string{dv}, And(Le(I(0), d), Lt(d, x.n), Lt(d, y.n), Lt(Sel(x.arr, Add(x.off, d)), Sel(y.arr, Add(y.off, d))), same(d)))
 	return Or(properPrefix, differ)
+}
+
+func (e *Engine) evalGhostOf(st *State, call *ast.CallExpr) Value {
+	t := e.typeOf(call)
+	cv := e.constOf(call.Args[0])
+	if cv == nil {
+		e.fail(call, "ghostOf needs a constant name")
+	}
+	gname := "go_" + sanitize(strings.Trim(cv.ExactString(), "\""))
+	var argTs []T
+	for _, a := range call.Args[1:] {
+		v := e.eval(st, a)
+		argTs = append(argTs, e.flatten(st, v, e.typeOf(a))...)
+	}
+	decl := fmt.Sprintf("(declare-fun %s (%s) Int)", gname, strings.TrimSpace(strings.Repeat("Int ", len(argTs))))
+	e.declareUF(gname, decl)
+	var r T
+	if len(argTs) == 0 {
+		r = T{gname, SInt}
+	} else {
+		r = app(SInt, gname, argTs...)
+	}
+	switch u := under(t).(type) {
+	case *types.Pointer, *types.Map:
+		return RefV{r}
+	case *types.Basic:
+		if u.Info()&types.IsBoolean != 0 {
+			return BoolV{Eq(r, I(1))}
+		}
+		if u.Info()&types.IsString != 0 {
+			return StrV{r}
+		}
+		return IntV{r}
+	case *types.Interface:
+		return IfaceV{r, Ite(Eq(r, I(0)), I(0), I(1))}
+	}
+	e.fail(call, "ghostOf result type %s not supported", t)
+	return nil
 }
